@@ -6,7 +6,8 @@
      !<k>,<m>     throw(K_k, "m%d", m)
      T<digits> B H   try { B } catch (e in K_d1, K_d2, ..) { H }   (no digits = catch everything)
      C P          call of a function whose body is P
-   argv[1] = model | spec | model0 | model1 ; one output line per case:
+   argv[1] = spec | model1 (exception_catch clears `active`: the repaired code) | model0 (pinned code);
+   one output line per case:
      <event> <event> ... <final>
      event:  t<n>@<d>  |  h<k>,<m>@<d>
      final:  N@<d> (normal, depth at the end)  |  D<k>,<m> (died: Uncaught K_k with message m)
@@ -52,7 +53,8 @@ let () =
             | RRaised (k, m) -> Printf.sprintf "D%d,%d" (i k) (i m)))
       end else begin
         let run = match mode with
-          | "model0" -> exn_mach_clr false | "model1" -> exn_mach_clr true | _ -> exn_mach in
+          | "model0" -> exn_mach_clr false | "model1" -> exn_mach_clr true
+          | _ -> failwith "mode: spec | model0 | model1" in
         let ((evs, r), st) = run p exn_init in
         print_endline (line_of evs (match r with
           | MNormal -> Printf.sprintf "N@%d" (i (exn_depth st))
